@@ -19,7 +19,7 @@ E2_TRUSTED = [
 ]
 
 
-def run_e2(hbin, model, runs, par=4, timeout_s=300, ld=None):
+def run_e2(hbin, model, runs, par=4, timeout_s=300, ld=None, listed=lambda r: False):
     driver = os.path.join(LEAN, '.lake', 'build', 'bin', 'driver')
 
     import threading
@@ -42,7 +42,7 @@ def run_e2(hbin, model, runs, par=4, timeout_s=300, ld=None):
         d = subprocess.run([driver, model], input=raw, capture_output=True, text=True)
         verdict = d.stdout.strip().split('\n')[0] if d.stdout.strip() else 'case e2 reject 0 [no-driver-output]'
         res = {'argv': argv, 'raw': raw, 'verdict': verdict, 'err': err, 'rc': rc, 'wall': time.time() - t0}
-        if classify_e2(res) == 'monitor':
+        if classify_e2(res) == 'monitor' and not listed(res):
             stop.set()
         return res
 
@@ -52,6 +52,8 @@ def run_e2(hbin, model, runs, par=4, timeout_s=300, ld=None):
 
 def classify_e2(r):
     v = r['verdict']
+    if r['rc'] == -998:
+        return 'skip'
     if r['rc'] == -999 or ' inconclusive ' in v:
         return 'stall'
     if 'monitors FAIL' in v or 'crash' in r['raw'][-200:]:
@@ -119,21 +121,31 @@ def run(spec):
         runs = [rp['argv']]
     else:
         runs = spec['runs'](rng, tr)
-    results = run_e2(hbin, spec['model'], runs, par=spec.get('par', 4), timeout_s=spec.get('timeout_s', 600))
+    kf = known_findings(prop)
+
+    def mon_msg(r):
+        return r['verdict'].split('monitors FAIL:')[-1].strip() if 'monitors FAIL' in r['verdict'] else 'crash: ' + r['raw'][-200:].replace('\n', ' ')
+
+    def is_listed(r):
+        sig = re.sub(r'\d+', 'N', mon_msg(r))[:160]
+        return any(f['signature'] and f['signature'] in sig for f in kf)
+
+    results = run_e2(hbin, spec['model'], runs, par=spec.get('par', 4), timeout_s=spec.get('timeout_s', 600), listed=is_listed)
     kinds = {'pass': 0, 'monitor': 0, 'tie': 0, 'stall': 0, 'skip': 0}
     for r in results:
         kinds[classify_e2(r)] += 1
+    unlisted = sum(1 for r in results if classify_e2(r) == 'monitor' and not is_listed(r))
     extra = 0
-    if (not proof_ok or kinds['tie'] > 0) and kinds['monitor'] == 0 and not replay and 'extra_runs' in spec:
+    # a broken proof obligation or tie with no concrete (unlisted) failure yet: search harder for a failing history
+    if (not proof_ok or kinds['tie'] > 0) and unlisted == 0 and not replay and 'extra_runs' in spec:
         eruns = spec['extra_runs'](rng, tr)
-        eres = run_e2(hbin, spec['model'], eruns, par=spec.get('par', 4), timeout_s=spec.get('timeout_s', 600))
+        eres = run_e2(hbin, spec['model'], eruns, par=spec.get('par', 4), timeout_s=spec.get('timeout_s', 600), listed=is_listed)
         extra = len(eruns)
         for r in eres:
             if classify_e2(r) == 'monitor':
                 results.append(r)
                 kinds['monitor'] += 1
 
-    kf = known_findings(prop)
     mon = [r for r in results if classify_e2(r) == 'monitor']
     ties = [r for r in results if classify_e2(r) == 'tie']
     reported = set()
@@ -144,7 +156,7 @@ def run(spec):
 
     if mon:
         for r in mon:
-            msg = r['verdict'].split('monitors FAIL:')[-1].strip() if 'monitors FAIL' in r['verdict'] else 'crash: ' + r['raw'][-200:].replace('\n', ' ')
+            msg = mon_msg(r)
             sig = re.sub(r'\d+', 'N', msg)[:160]
             if sig in reported:
                 continue
@@ -157,7 +169,8 @@ def run(spec):
                              {'property': prop, 'kind': 'monitor', 'what': msg, 'argv': r['argv'], 'impl_history_tail': trim(r['raw']),
                               'model_verdict': r['verdict'], 'rerun_cmd': f'cd {HERE} && ./check {prop} --replay <this file>  (or: {hbin} ' + ' '.join(str(a) for a in r['argv']) + ')'})
             violations.append(f'VIOLATION property={prop} replay={p}')
-    elif ties or not proof_ok:
+    if not violations and (ties or not proof_ok):
+        # (also reached when every monitor hit was a listed known finding: a broken tie must still be reported)
         if not proof_ok:
             p = write_replay(prop, f'proof-{base_seed}.json', {'property': prop, 'kind': 'proof', 'problems': problems,
                              'build_log': build_log[-3000:], 'theorems': theorems, 'searched_runs': len(results) + extra})
